@@ -351,6 +351,11 @@ def generated_doc(spec):
             if r["rep"] > 1:
                 row.repeated = r["rep"]
             t.append_row(row)
+        # more column declarations than the widest row holds (valid ODF: e.g. after append_column)
+        for _ in range((spec.get("extra_cols") or [0])[ti % len(spec.get("extra_cols") or [0])]):
+            from odfdo import Column
+
+            t.append_column(Column())
         place = places[ti % len(places)] if places else "body"
         if spec["type"] != "text" or place == "body":
             doc.body.append(t)
@@ -493,6 +498,7 @@ def run_shard(ctx):
     gen = st.fixed_dictionaries({"kind": st.just("generated"), "spec": st.fixed_dictionaries({
         "type": st.sampled_from(["text", "text", "spreadsheet"]),
         "places": st.lists(st.sampled_from(["body", "body", "frame-in-header", "frame-in-paragraph", "nested", "section"]), min_size=1, max_size=4),
+        "extra_cols": st.lists(st.sampled_from([0, 0, 1, 2]), min_size=1, max_size=3),
         "tables": st.lists(st.one_of(random_table, empty_table, trailing_table), min_size=1, max_size=4)})})
     whole = [n for n in names if n.startswith(("doc.get_formatted_text", "doc.to_markdown", "doc.str", "body.get_formatted_text", "body.inner_text",
                                                 "body.text_recursive", "doc.get_formated_meta", "doc.show_styles"))] or names
